@@ -246,8 +246,11 @@ def MISO_analytic_optimal_spectral_analysis(
     # Set up the system of equations:
     eqns = [Svec[i] - sum(Tmat[i, j] * Hvec[j] for j in range(q)) for i in range(q)]
 
-    # Solve the system symbolically:
-    solution = sp.solve(eqns, Hvec)
+    # Solve the system symbolically.  The closed form is written out by symbolic elimination
+    # (LU) rather than as the expanded determinant ratios sp.solve returns: both are the same
+    # rational functions, but the expanded form cancels catastrophically in floating point
+    # once the input spectral matrix is moderately ill-conditioned (correlated inputs).
+    solution = dict(zip(Hvec, Tmat.LUsolve(Svec)))
 
     logger.info(f"Solution: {solution}")
     logger.info("Computing all spectral estimates...")
